@@ -26,7 +26,8 @@ RULE = ("workloads = server in {Simple, Pooled with default pool, Pooled with us
         "= histories over {construct, serve in a thread, handle_request, shutdown, server_close}: close after "
         "serving, close with in-flight gate-blocked requests released afterwards, close without ever serving, repeated "
         "close, server_close alone while serving. Oracles: reply token = sent token, each token executed exactly once, "
-        "requests after a bad one are served, lifecycle calls return (frozen-state witness otherwise), listening socket "
+        "requests after a bad one are served - also on ONE persistent connection kept open by a caller-supplied HTTP/1.1 "
+        "request handler, after notifications, batches of notifications and malformed bodies -, lifecycle calls return (frozen-state witness otherwise), listening socket "
         "closed and pool workers gone afterwards. distinct = distinct (server cell, operation kind, token) for the "
         "client workloads and distinct (cell, lifecycle history) for the lifecycles; non-trivial = a reply was matched "
         "against its token or a lifecycle call was observed to return or freeze.")
@@ -66,7 +67,7 @@ def registry(gates):
 class SrvUnderTest(object):
     _serial = [0]
 
-    def __init__(self, cell, family, gate=None, pool_timeout=0.05):
+    def __init__(self, cell, family, gate=None, pool_timeout=0.05, handler=None):
         import jsonrpclib.threadpool as tp
         kind, psize = cell
         SrvUnderTest._serial[0] += 1
@@ -85,7 +86,7 @@ class SrvUnderTest(object):
                                            queue_size=BOUNDED_QUEUE.get(psize, 0),
                                            timeout=pool_timeout, logname=self.poolname)
             self.user_pool.start()
-        self.srv = servers.Srv(kind, family, self.fx, pool=self.user_pool)
+        self.srv = servers.Srv(kind, family, self.fx, pool=self.user_pool, handler=handler)
         self.gate = gate
         self.in_gate = [0]
         # connections the serving loop has taken from the listener and handed over (to the request pool / handler):
@@ -362,6 +363,109 @@ def idle_gap_workload(ctx, rng, inj, family, plan):
     if bad:
         ctx.violate("reply-token-differs-from-sent:idle-gap", case, {"bad": bad[:5]})
     lifecycle_close(ctx, sut, case, ["shutdown", "server_close"], "after-idle-gap")
+
+
+# ---------------------------------------------------------------------------
+# persistent connections: a caller-supplied request handler speaking HTTP/1.1 keeps the connection open, so that "serving
+# subsequent requests" also means: on the SAME connection, after a notification, a batch of notifications, a bad body
+
+def _read_reply(sock, buf):
+    """One HTTP reply from a persistent connection: (status, headers dict, body) or (None, reason, b'')."""
+    while b"\r\n\r\n" not in buf[0]:
+        data = sock.recv(65536)
+        if not data:
+            return None, "closed-before-headers", b""
+        buf[0] += data
+    head, _, rest = buf[0].partition(b"\r\n\r\n")
+    lines = head.split(b"\r\n")
+    status = int(lines[0].split()[1])
+    headers = {}
+    for line in lines[1:]:
+        k, _, v = line.partition(b":")
+        headers[k.strip().lower().decode("latin-1")] = v.strip().decode("latin-1")
+    if "content-length" not in headers:
+        # nothing tells where this reply ends while the connection stays open: it cannot be told from "not answered"
+        buf[0] = rest
+        return status, headers, None
+    n = int(headers["content-length"])
+    while len(rest) < n:
+        data = sock.recv(65536)
+        if not data:
+            return None, "closed-inside-body", b""
+        rest += data
+    buf[0] = rest[n:]
+    return status, headers, rest[:n]
+
+
+def keepalive_workload(ctx, rng, cell, family):
+    import jsonrpclib.SimpleJSONRPCServer as S
+
+    class KeepAliveHandler(S.SimpleJSONRPCRequestHandler):
+        protocol_version = "HTTP/1.1"
+    sut = SrvUnderTest(cell, family, handler=KeepAliveHandler)
+    sut.srv.start()
+    case = {"cell": [cell[0], cell[1]], "family": family, "scenario": "persistent-connection"}
+    ctx.cell(cell[0], "pool%s" % cell[1], family, "persistent-connection")
+    sock = None
+    try:
+        sock = sut.srv.connect(timeout=10)
+        buf = [b""]
+        kinds = ["call"] + [rng.choice(["call", "notification", "notifications-batch", "calls-batch", "malformed",
+                                        "failing", "mixed-batch"]) for _ in range(ctx.pick(12, 40))] + ["call"]
+        for i, kind in enumerate(kinds):
+            tok = "k%d" % i
+            call = {"jsonrpc": "2.0", "id": i, "method": "echo", "params": [tok]}
+            note = {"jsonrpc": "2.0", "method": "note", "params": [tok]}
+            body = {"call": call, "notification": note, "notifications-batch": [note, dict(note, params=[tok + "b"])],
+                    "calls-batch": [call, dict(call, id="x%d" % i)], "failing": dict(call, method="fail"),
+                    "mixed-batch": [note, call]}.get(kind)
+            text = '{"jsonrpc": "2.0", "method"' if kind == "malformed" else json.dumps(body)
+            data = text.encode("utf-8")
+            sock.sendall(b"POST / HTTP/1.1\r\nHost: x\r\nContent-Type: application/json-rpc\r\nContent-Length: "
+                         + str(len(data)).encode() + b"\r\n\r\n" + data)
+            step = dict(case, step=i, kind=kind, sequence=kinds[:i + 1])
+            ctx.count("judged:persistent-connection-replies")
+            try:
+                status, headers, payload = _read_reply(sock, buf)
+            except (socket.timeout, OSError, ValueError, IndexError) as ex:
+                ctx.violate("request-on-a-persistent-connection-not-answered:after-%s" % (kinds[i - 1] if i else "connect"),
+                            step, {"raised": repr(ex)})
+                return
+            if status is None:
+                ctx.violate("persistent-connection-closed-by-the-server:%s" % headers, step, {})
+                return
+            if payload is None:
+                ctx.violate("reply-without-length-on-a-persistent-connection:to-%s" % kind, step, {"headers": headers})
+                return
+            if kind in ("notification", "notifications-batch"):
+                ok = payload == b""
+            else:
+                try:
+                    val = json.loads(payload.decode("utf-8"))
+                except ValueError:
+                    val = None
+                if kind == "call":
+                    ok = isinstance(val, dict) and val.get("id") == i and val.get("result", {}).get("bound", {}).get("token") == tok
+                elif kind == "calls-batch":
+                    ok = isinstance(val, list) and [v.get("id") for v in val] == [i, "x%d" % i]
+                elif kind == "mixed-batch":
+                    ok = isinstance(val, list) and [v.get("id") for v in val] == [i]
+                elif kind == "failing":
+                    ok = isinstance(val, dict) and val.get("id") == i and "error" in val
+                else:
+                    ok = isinstance(val, dict) and "error" in val
+            if not ok:
+                ctx.violate("reply-on-a-persistent-connection-is-not-the-answer-to-its-request:%s" % kind, step,
+                            {"payload": payload[:200]})
+                return
+        ctx.case(("persistent", cell, family, tuple(kinds)), nontrivial=True)
+    finally:
+        if sock is not None:
+            try:
+                sock.close()
+            except OSError:
+                pass
+        lifecycle_close(ctx, sut, case, ["shutdown", "server_close"], "after-persistent-connection")
 
 
 # ---------------------------------------------------------------------------
@@ -649,6 +753,14 @@ def run(ctx):
             ctx.unsure("time budget exhausted in the idle-gap sweep")
             break
         idle_gap_workload(ctx, rng, inj, rng.choice(FAMILIES), pt)
+    # 1c. persistent (HTTP/1.1) connections through a caller-supplied request handler: every (cell, family)
+    inj.configure("none")
+    n = 0
+    for rep in range(ctx.pick(1, 10)):
+        for cell, fam in combos:
+            n += 1
+            if ctx.mine(n):
+                keepalive_workload(ctx, rng, cell, fam)
     # 2. lifecycles
     n = 0
     for rep in range(ctx.pick(1, 16)):
